@@ -12,6 +12,7 @@
 #include <string.h>
 #include <signal.h>
 #include <unistd.h>
+#include <sys/time.h>
 #include <gmp.h>
 
 #ifndef LPV_CASE_TIMEOUT
@@ -20,6 +21,7 @@
 static uint64_t lpv_state;
 static long lpv_case = 0;
 static char lpv_cur[4096];
+static int lpv_timeout_scale = 1;       /* LPV_TIMEOUT_SCALE: the checker re-runs a case that ran out of budget with a larger one */
 
 static inline uint64_t rnd64(void) {
   uint64_t z = (lpv_state += 0x9e3779b97f4a7c15ULL);
@@ -41,7 +43,11 @@ static inline void lpv_begin_case(uint64_t seed, long idx) {
   rnd64(); rnd64();
   lpv_case = idx;
   lpv_cur[0] = 0;
-  alarm(LPV_CASE_TIMEOUT);      /* watchdog: a case that does not finish is a result (hang) */
+  { /* watchdog: a case that does not finish is a result (hang).  The budget is CPU time of this process, not wall-clock time:
+       a loaded machine must not turn a slow case into a hang */
+    struct itimerval it; memset(&it, 0, sizeof it);
+    it.it_value.tv_sec = (long)LPV_CASE_TIMEOUT * lpv_timeout_scale;
+    setitimer(ITIMER_PROF, &it, 0); }
 }
 
 static void lpv_die_note(void) {
@@ -69,13 +75,14 @@ void __sanitizer_set_death_callback(void (*cb)(void));
 static void lpv_alarm(int s) {
   (void)s;
   char buf[4300];
-  int n = snprintf(buf, sizeof buf, "#died case=%ld hang(>%ds) during: %s\n", lpv_case, LPV_CASE_TIMEOUT, lpv_cur);
+  int n = snprintf(buf, sizeof buf, "#died case=%ld hang(>%ds cpu) during: %s\n", lpv_case, LPV_CASE_TIMEOUT * lpv_timeout_scale, lpv_cur);
   fflush(stdout);
   if (n > 0) { ssize_t w = write(1, buf, (size_t)n); (void)w; }
   _exit(99);
 }
 static inline void lpv_init(void) {
-  signal(SIGALRM, lpv_alarm);
+  signal(SIGPROF, lpv_alarm);
+  { const char* sc = getenv("LPV_TIMEOUT_SCALE"); if (sc && atoi(sc) > 0) lpv_timeout_scale = atoi(sc); }
   signal(SIGABRT, lpv_sig);
   signal(SIGFPE, lpv_sig);
   signal(SIGSEGV, lpv_sig);
